@@ -618,8 +618,14 @@ func genC06(g *Gen) {
 		}
 	}
 	for _, mgr := range []string{"unsafe", "safe"} {
+		wp := widePool()
+		numeric := func(v *variants.Variant) bool { return v.Type() >= variants.Integer && v.Type() <= variants.Double }
 		for ai := 0; ai < nw; ai++ {
 			for bi := 0; bi < nw; bi++ {
+				// quick tier: all numeric pairs and all pairs of one type; a fifth of the mixed rest
+				if !g.Thorough() && !(numeric(wp[ai]) && numeric(wp[bi])) && wp[ai].Type() != wp[bi].Type() && (ai*7+bi)%5 != 0 {
+					continue
+				}
 				for _, name := range binNames {
 					if name != "Pow" {
 						g.Run("host arithmetic on wide values (extreme magnitudes, rounding midpoints)", []Ev{{"op": "bin", "mgr": mgr, "name": name, "ai": ai, "bi": bi, "full": full, "wide": true, "xseed": int(c06extraSeed)}})
